@@ -30,8 +30,9 @@ RULE = ('four exhaustively enumerated text families (A grammar product, B token 
         'every line split, C every \\x/\\u/\\U escape value, D byte mutations of valid Manifests); '
         'each text = one load by the real parser, judged by the reference parser (ok / reject / '
         'dontcare) plus the unconditional rule that only ManifestSyntaxError/ManifestUnsignedData '
-        'may escape.  All generated texts are pairwise distinct by construction inside a family; '
-        'to bound memory the distinct-case descriptor is coarser than the text: A = (tag, path, '
+        'may escape.  Texts of B and C are pairwise distinct by construction; A and D contain a '
+        'few coinciding texts (A < 0.02 %, D about 2 %) that are simply evaluated again.  '
+        'To bound memory the distinct-case descriptor is coarser than the text: A = (tag, path, '
         'size, tail, extra) ignoring separator/ending/context; B = the token sequence for length '
         '<= 4, (length, first four tokens) beyond; C = (escape form, value >> 12); D = (manifest, '
         'position, operation[, second mutation position]).  A descriptor is non-trivial when at '
